@@ -25,6 +25,50 @@ def sortBy (lt : α → α → Bool) : List α → List α
   | [] => []
   | x :: xs => insertBy lt x (sortBy lt xs)
 
+/-! ### `value_sort.rs try_sort_by`: the bottom-up stable merge sort with a comparison that can fail
+
+`less r l = none` is a failing comparison. Sorted runs are merged into a scratch buffer and written
+back only when the merge is complete, so when an error is returned the slice holds the result of all
+*completed* merges — a permutation of its values. The model computes exactly that state. -/
+
+/-- merge two runs; the left value is taken unless the right one is strictly smaller -/
+def tryMerge (less : α → α → Option Bool) : Nat → List α → List α → Option (List α)
+  | _, [], r => some r
+  | _, l, [] => some l
+  | 0, _, _ => none
+  | f + 1, a :: l, b :: r =>
+    match less b a with
+    | none => none
+    | some true => (tryMerge less f (a :: l) r).map (b :: ·)
+    | some false => (tryMerge less f l (b :: r)).map (a :: ·)
+
+/-- one pass with run width `w`: `(values after the pass, no comparison failed)` -/
+def tryPass (less : α → α → Option Bool) (w : Nat) : Nat → List α → List α × Bool
+  | 0, xs => (xs, true)
+  | f + 1, xs =>
+    if xs.length ≤ w then (xs, true)   -- `start + width < len` is false: the rest is left as it is
+    else
+      let left := xs.take w
+      let right := (xs.drop w).take w
+      let tail := (xs.drop w).drop w
+      match tryMerge less (left.length + right.length) left right with
+      | none => (xs, false)            -- the scratch buffer is dropped, nothing more is written
+      | some m =>
+        let r := tryPass less w f tail
+        (m ++ r.1, r.2)
+
+def trySortLoop (less : α → α → Option Bool) : Nat → Nat → List α → List α × Bool
+  | 0, _, xs => (xs, true)
+  | f + 1, w, xs =>
+    if xs.length ≤ w then (xs, true)
+    else
+      let r := tryPass less w xs.length xs
+      if r.2 then trySortLoop less f (2 * w) r.1 else r
+
+/-- `try_sort_by`: `(values afterwards, Ok?)` -/
+def trySortBy (less : α → α → Option Bool) (xs : List α) : List α × Bool :=
+  trySortLoop less xs.length 1 xs
+
 /-- strict test derived from `compare_values` -/
 def valLt (F : FloatOps) (a b : Val) : Bool := vlt F a b == some true
 
